@@ -247,7 +247,7 @@ def run(ctx):
         if n % 7 == 0:
             for (ai, bi) in ((0, 1), (0, 0), (1, 0)):
                 unlink_sweep(ctx, spec, ai, bi, destroy=bool(n % 2), cache=bool(n % 3))
-    ngraphs = 150 if ctx.tier == "quick" else 1500
+    ngraphs = ctx.n(150 if ctx.tier == "quick" else 1500)
     for n in range(ngraphs):
         spec = graphs.rand_spec(rng, nmax=5, mmax=10, uni_mode="none", self_p=0.2, ecls=graphs.ECLS_X)
         g = graphs.build(spec)
